@@ -157,6 +157,36 @@ def gen_c04(rng, tier):
     return cases
 
 
+def gen_c03(rng, tier):
+    """mixed frames + a systematic sweep of answered requests: every CHANGE-REQUEST flag word 0..7 (and a few larger),
+    one or two CHANGE-REQUEST attributes, with/without magic cookie, UDP over IPv4/IPv6, destination ports
+    incl. 65535 (wrap), plus one request of every other protocol, from both handled addresses"""
+    cases = gen_mixed(rng, tier)
+    for selfmode in (True, False):
+        w = World(rng, selfmode=selfmode, denymode=False)
+        frames = []
+        for v6 in (False, True):
+            for dport in (3478, 65535, 0, rng.u16()):
+                for flags in list(range(8)) + [0xffffffff, 0x80000002, 0x106]:
+                    for second in (None, 2, 4):
+                        attrs = gen.stun_attr(3, struct.pack('>I', flags))
+                        if second is not None:
+                            attrs += gen.stun_attr(0x8022, b'abcd') + gen.stun_attr(3, struct.pack('>I', second))
+                        for cookie_ in (b'\x21\x12\xa4\x42', rng.bytes(4)):
+                            # pad the cookie-bearing form beyond 256 attribute bytes so that the matcher identifies it (K2)
+                            a = attrs + (gen.stun_attr(0x8022, bytes(252)) if cookie_[0] == 0x21 else b'')
+                            if cookie_[0] != 0x21 and second is not None:
+                                continue   # the cookie-less form is only identified with exactly one CHANGE-REQUEST
+                            st = b'\x00\x01' + struct.pack('>H', len(a)) + cookie_ + rng.bytes(12) + a
+                            frames.append(w.udp_frame(v6, rng.u16(), dport, st))
+            for kind in ('http', 'ssh', 'ghost', 'dns', 'rpc', 'smb1', 'smb2'):
+                pl = gen.gen_app(rng, tcp=False, kinds=[kind])[2]
+                frames.append(w.udp_frame(v6, rng.u16(), rng.u16(), pl))
+                frames.append(w.data_frame(v6, rng.u16(), rng.u16(), rng.u32(), gen.gen_app(rng, tcp=True, kinds=[kind])[2]))
+        cases.append(case(w, frames, ['stun-change-request-sweep', 'self-list' if selfmode else 'no-self-list']))
+    return cases
+
+
 def gen_c02(rng, tier):
     cases = gen_mixed(rng, tier)
     w = World(rng, selfmode=True, denymode=True)
@@ -273,6 +303,9 @@ def gen_flows(rng, tier, nflows=4, steps=60):
             else:
                 # wrap-around: seq near 2^32
                 fl[3] = rng.choice([0xffffffff, 0xfffffffe, 0])
+        # Ethernet trailers: short frames padded to the 60-byte minimum (as NICs do), or a few stray trailing bytes
+        frames = [(f + bytes(60 - len(f)) if len(f) < 60 and rng.chance(1, 3) else f + rng.bytes(1 + rng.below(6)) if rng.chance(1, 12) else f)
+                  for f in frames]
         cases.append(case(w, frames, ['flows']))
     return cases
 
@@ -657,7 +690,7 @@ PROPS = {
     'C02': dict(gen=gen_c02, judge='C02', proj=proj_headers,
                 rule='frames from the structured frame builder over configurations {self list on/off}x{deny list on/off}; '
                      'non-trivial = frame that C02 requires to be silent, or a reply under a configured self-IP list'),
-    'C03': dict(gen=lambda rng, tier: gen_mixed(rng, tier), judge='C03', proj=proj_headers,
+    'C03': dict(gen=lambda rng, tier: gen_c03(rng, tier), judge='C03', proj=proj_headers,
                 rule='frames from the structured frame builder; non-trivial = frame that elicited a reply (mirror relation evaluated)'),
     'C04': dict(gen=gen_c04, judge='C04', release=True, proj=proj_headers,
                 rule='frames from the structured frame builder, payload sizes 0..4 KiB incl. odd; non-trivial = a reply was emitted and re-parsed / re-checksummed'),
